@@ -77,7 +77,8 @@ StepIs(step, sec, period) == W!FloorDivIs(step, sec, period)
 
 GenTOTPExpect(Hm(_, _, _), secret, sec, step, p) ==
     LET rp == ResolveTOTP(p) IN
-    IF ~InTimeDomain(sec) THEN AnyX
+    IF B32!Region(secret) = "reject" THEN ErrorNV               \* whatever the instant
+    ELSE IF ~InTimeDomain(sec) THEN AnyX
     ELSE IF ~StepIs(step, sec, rp.period) THEN [class |-> "badhint"]
     ELSE GenAtCounter(Hm, secret, step, rp.alg, rp.digits)
 
@@ -105,7 +106,7 @@ ValHOTPExpect(Hm(_, _, _), secret, code, ctr, p) ==
 (* TOTP: domain floor(t/p) >= s, t < 2^62                                    *)
 ValTOTPExpect(Hm(_, _, _), secret, code, sec, step, p) ==
     LET rp == ResolveTOTP(p) IN
-    IF W!Less(Ten, rp.skew) THEN RefuseX
+    IF W!Less(Ten, rp.skew) \/ B32!Region(secret) = "reject" THEN RefuseX    \* whatever the instant
     ELSE IF ~InTimeDomain(sec) THEN AnyX
     ELSE IF ~StepIs(step, sec, rp.period) THEN [class |-> "badhint"]
     ELSE ValidateAt(Hm, secret, code, step, rp.alg, rp.digits, rp.skew, W!Leq(rp.skew, step))
